@@ -93,6 +93,7 @@ Definition second_key (p : pdef) (k : nat) : key := KN (nth (k - 1) (pfactors p)
 
 Record sworld (V : Type) := {
   sw_nb : nat;                                  (* number of blocks: shape = (nb, nb) *)
+  sw_np : nat;                                  (* number of perturbation parameters (n_infinite) *)
   sw_inputs : list string;                      (* names of the input series *)
   sw_env : string -> index -> V;                (* elements of the inputs *)
   sw_hasoff : bool;                             (* the scope provides [offdiag] *)
@@ -119,9 +120,14 @@ Section Interp.
     | FlagRow n => sw_rflag W n (idx_i idx)
     end.
 
+  (** start data exist for the blocks of the series at the zeroth order *)
+  Definition is_start_index (idx : index) : bool :=
+    all_zero (idx_n idx) && Nat.eqb (length (idx_n idx)) (sw_np W)
+    && Nat.ltb (idx_i idx) (sw_nb W) && Nat.ltb (idx_j idx) (sw_nb W).
+
   (** start datum of a defined series, as a value *)
   Definition spec_start (d : sdef) (idx : index) : option V :=
-    if all_zero (idx_n idx) then
+    if is_start_index idx then
       match sstart d with
       | StartZero => Some (v0 O)
       | StartOne => if Nat.eqb (idx_i idx) (idx_j idx) then Some (v1 O) else None
